@@ -166,6 +166,64 @@ impl ObjectStore for FailSwitchStore {
 }
 
 // ---------------------------------------------------------------------------
+// RaceLoserStore: every `every`-th conditional update finds that somebody else wrote the object
+// in the meantime (the same bytes under a new tag - the smallest competing write there is), so
+// the caller's compare-and-swap loses and has to be repeated.
+
+#[derive(Debug)]
+pub struct RaceLoserStore {
+    pub inner: std::sync::Arc<dyn ObjectStore>,
+    pub every: u64,
+    pub counter: std::sync::atomic::AtomicU64,
+    pub lost: std::sync::atomic::AtomicU64,
+}
+
+impl std::fmt::Display for RaceLoserStore {
+    fn fmt(&self, f: &mut std::fmt::Formatter<'_>) -> std::fmt::Result {
+        write!(f, "RaceLoserStore(every {})", self.every)
+    }
+}
+
+#[async_trait]
+impl ObjectStore for RaceLoserStore {
+    async fn put_opts(&self, location: &OPath, payload: PutPayload, opts: PutOptions) -> object_store::Result<PutResult> {
+        if matches!(opts.mode, object_store::PutMode::Update(_)) && self.every > 0 {
+            let n = self.counter.fetch_add(1, std::sync::atomic::Ordering::SeqCst);
+            if n % self.every == self.every - 1 {
+                if let Ok(g) = self.inner.get(location).await {
+                    if let Ok(b) = g.bytes().await {
+                        let _ = self.inner.put(location, b.into()).await;
+                        self.lost.fetch_add(1, std::sync::atomic::Ordering::SeqCst);
+                    }
+                }
+            }
+        }
+        self.inner.put_opts(location, payload, opts).await
+    }
+    async fn put_multipart_opts(&self, location: &OPath, opts: PutMultipartOpts) -> object_store::Result<Box<dyn MultipartUpload>> {
+        self.inner.put_multipart_opts(location, opts).await
+    }
+    async fn get_opts(&self, location: &OPath, options: GetOptions) -> object_store::Result<GetResult> {
+        self.inner.get_opts(location, options).await
+    }
+    async fn delete(&self, location: &OPath) -> object_store::Result<()> {
+        self.inner.delete(location).await
+    }
+    fn list(&self, prefix: Option<&OPath>) -> BoxStream<'_, object_store::Result<ObjectMeta>> {
+        self.inner.list(prefix)
+    }
+    async fn list_with_delimiter(&self, prefix: Option<&OPath>) -> object_store::Result<ListResult> {
+        self.inner.list_with_delimiter(prefix).await
+    }
+    async fn copy(&self, from: &OPath, to: &OPath) -> object_store::Result<()> {
+        self.inner.copy(from, to).await
+    }
+    async fn copy_if_not_exists(&self, from: &OPath, to: &OPath) -> object_store::Result<()> {
+        self.inner.copy_if_not_exists(from, to).await
+    }
+}
+
+// ---------------------------------------------------------------------------
 // FlakyBodyStore: whole-object downloads arrive in pieces, and every `every`-th one is cut
 // after some bytes with an error in the body stream (the request itself succeeded).
 
